@@ -177,12 +177,12 @@ Proof.
   { intros H. apply typed_loader_inv in H. destruct H as (Hk & Hv & Hr). subst k ver.
     split; [exact Hle|left]. split; [discriminate|]. split; [exact E4|]. split; [reflexivity|]. intros _; exact Hr. }
   destruct (String.eqb_spec (id_kind i) (kind_name KAuthRequest)) as [E5|N5].
-  { destruct (um KAuthRequest (id_version i) && (id_nats_type i =? kind_name KAuthRequest)%string); kill.
+  { destruct (um KAuthRequest (id_version i) && (id_nats_type i =? kind_name KAuthRequest)%string && (id_nats_version i =? id_version i)); kill.
     intros H. injection H as Hk Hv. subst k ver.
     split; [exact Hle|left]. split; [discriminate|]. split; [exact E5|]. split; [reflexivity|].
     intros [F|[F|[F|[F|F]]]]; try discriminate F; destruct F. }
   destruct (String.eqb_spec (id_kind i) (kind_name KAuthResponse)) as [E6|N6].
-  { destruct (um KAuthResponse (id_version i) && (id_nats_type i =? kind_name KAuthResponse)%string); kill.
+  { destruct (um KAuthResponse (id_version i) && (id_nats_type i =? kind_name KAuthResponse)%string && (id_nats_version i =? id_version i)); kill.
     intros H. injection H as Hk Hv. subst k ver.
     split; [exact Hle|left]. split; [discriminate|]. split; [exact E6|]. split; [reflexivity|].
     intros [F|[F|[F|[F|F]]]]; try discriminate F; destruct F. }
@@ -224,6 +224,38 @@ Proof.
     destruct k; try reflexivity. exfalso; apply Hk; reflexivity.
   - rewrite (is_typed_name_false _ Hn). subst k. unfold eff_ver, lay.
     destruct (alg =? alg_old)%string; reflexivity.
+Qed.
+
+(* authorization claims have no version-1 form: the version their nats section reports
+   is the version that selects the signed text *)
+Lemma load_claims_auth_version : forall i um k ver,
+  load_claims i um = Some (k, ver) -> (k = KAuthRequest \/ k = KAuthResponse) ->
+  id_nats_version i = ver /\ ver = id_version i.
+Proof.
+  intros i um k ver H Hk. unfold load_claims in H. cbv zeta in H.
+  destruct (lib_version <? id_version i); [discriminate H|].
+  destruct (String.eqb_spec (id_kind i) (kind_name KOperator)).
+  { apply typed_loader_inv in H. destruct H as (-> & _). destruct Hk; discriminate. }
+  destruct (String.eqb_spec (id_kind i) (kind_name KAccount)).
+  { apply typed_loader_inv in H. destruct H as (-> & _). destruct Hk; discriminate. }
+  destruct (String.eqb_spec (id_kind i) (kind_name KUser)).
+  { apply typed_loader_inv in H. destruct H as (-> & _). destruct Hk; discriminate. }
+  destruct (String.eqb_spec (id_kind i) (kind_name KActivation)).
+  { apply typed_loader_inv in H. destruct H as (-> & _). destruct Hk; discriminate. }
+  destruct (String.eqb_spec (id_kind i) (kind_name KAuthRequest)).
+  { destruct (um KAuthRequest (id_version i) && (id_nats_type i =? kind_name KAuthRequest)%string) eqn:E1;
+      [|discriminate H].
+    destruct (Z.eqb_spec (id_nats_version i) (id_version i)) as [E|E]; [|discriminate H].
+    injection H as _ <-. split; [exact E | reflexivity]. }
+  destruct (String.eqb_spec (id_kind i) (kind_name KAuthResponse)).
+  { destruct (um KAuthResponse (id_version i) && (id_nats_type i =? kind_name KAuthResponse)%string) eqn:E1;
+      [|discriminate H].
+    destruct (Z.eqb_spec (id_nats_version i) (id_version i)) as [E|E]; [|discriminate H].
+    injection H as _ <-. split; [exact E | reflexivity]. }
+  destruct ((id_kind i =? "cluster")%string); [discriminate H|].
+  destruct ((id_kind i =? "server")%string); [discriminate H|].
+  destruct (um KGeneric (id_version i)); [|discriminate H].
+  injection H as <- _. destruct Hk; discriminate.
 Qed.
 
 (* ---------- Decode ---------- *)
@@ -306,6 +338,22 @@ Section DecodeProofs.
     split; [reflexivity|]. split; [exact H0|]. split; [exact Hp|]. split; [exact Hv|].
     split; [exact H1|]. split; [exact Hg|]. split; [exact H2|].
     split; [exact Hver|]. reflexivity.
+  Qed.
+
+  (* the version that accepted authorization claims REPORT (their nats section) selects the text that was verified *)
+  Lemma auth_reported_version : forall tok a,
+    decode tok = Some a -> (a_kind a = KAuthRequest \/ a_kind a = KAuthResponse) ->
+    exists c0 c1 c2 data i,
+      split dot tok = [c0; c1; c2] /\ b64dec c1 = Some data /\ parse_ident data = Some i /\
+      a_layout a = (if id_nats_version i <=? 1 then LV1 else LV2).
+  Proof.
+    intros tok a Hd Hk. apply decode_inv in Hd.
+    destruct Hd as (c0 & c1 & c2 & hj & typ & alg & data & i & k & ver & sig &
+                    Hs & H0 & Hp & Hv & H1 & Hi & Hl & H2 & Hver & Hr & Ha).
+    subst a. cbn [a_kind a_layout] in *.
+    exists c0, c1, c2, data, i. repeat split; try assumption.
+    destruct (load_claims_auth_version i (unmarshal_ok data) k ver Hl Hk) as [E _]. rewrite E.
+    unfold eff_ver, lay. destruct Hk as [->| ->]; reflexivity.
   Qed.
 
   (* ---------- C01 ---------- *)
